@@ -129,6 +129,11 @@ func wgReport(rec *ev.Rec, sp *wgSpec, in wgInput, res *wgResult) string {
 
 func wgRun(t *testing.T, sp *wgSpec) {
 	rec := ev.New(sp.prop, sp.rule)
+	defer func() {
+		if !rec.Flush() {
+			t.Fail()
+		}
+	}()
 	rec.Assume("the reference graph and the specification weights in internal/ref are a correct reading of the property statement",
 		"the verif hook (VerifBuildUnweighted / VerifAssignWeightsInOrder) calls the same unexported functions as Build/AssignWeights; the real Build is always exercised as well")
 	if !wgHooks {
@@ -173,9 +178,6 @@ func wgRun(t *testing.T, sp *wgSpec) {
 			ev.PrintKnown(sp.prop, id, wgKnownText[id])
 			rec.Note("known finding %s: %d generated models deviate from the specification exactly as the as-implemented footprint predicts", id, n)
 		}
-	}
-	if !rec.Flush() {
-		t.Fail()
 	}
 }
 
